@@ -42,7 +42,7 @@ def main(rep: Report, replay: dict | None, which=("A", "C", "B"), pair=False) ->
         else:
             iter_replay.replay_scenario(rep, sc)
         return
-    depth = 5 if rep.tier == "quick" else 8
+    depth = 5 if rep.tier == "quick" else 7
     for name in which:
         g = iter_replay.model_check(rep, name, depth if name != "C" else min(depth, 6))
         if g is not None:
